@@ -20,11 +20,12 @@ type Plan struct {
 	SpreadPct    int // % of objects placed in a random segment instead of the parent's
 	ZeroOffRand  bool // zero-sized struct pointers get a random in-bounds offset instead of -1
 	GapPct       int // % of allocations preceded by a zero gap word
+	PadGarbage   bool // list tail padding (bytes up to the word boundary, unused bits of a bit list) holds garbage
 
 	segs [][]byte
 
 	// statistics of what was produced
-	NearEdges, FarEdges, DoubleFarEdges, NegOffsets int
+	NearEdges, FarEdges, DoubleFarEdges, NegOffsets, PaddedLists int
 }
 
 // RandomPlan draws plan parameters.
@@ -58,6 +59,7 @@ func RandomPlan(r *common.RNG) *Plan {
 		p.GapPct = r.PickInt(0, 0, 20)
 	}
 	p.ZeroOffRand = r.Chance(1, 3)
+	p.PadGarbage = r.Chance(1, 3)
 	return p
 }
 
@@ -154,6 +156,18 @@ func (p *Plan) place(v *V, parentSeg int) loc {
 			words := (len(v.Data) + 7) / 8
 			w := p.alloc(seg, words)
 			copy(p.segs[seg][w*8:], v.Data)
+			if p.PadGarbage {
+				// Padding is not part of the value: the bytes between the end
+				// of the list content and the next word boundary, and the
+				// unused high bits of a bit list's last byte, may hold anything.
+				for i := w*8 + len(v.Data); i < (w+words)*8; i++ {
+					p.segs[seg][i] = byte(p.RNG.Uint64()) | 1
+				}
+				if v.ET == ETBit && v.N%8 != 0 {
+					p.segs[seg][w*8+len(v.Data)-1] |= byte(p.RNG.Uint64()) &^ (byte(1)<<uint(v.N%8) - 1)
+				}
+				p.PaddedLists++
+			}
 			return loc{seg: seg, w: w, desc: listDesc(v.ET, v.N)}
 		case ETPtr:
 			var kids []loc
